@@ -89,6 +89,30 @@ def gen_history(rng, typ, nops=None, finale=None):
             "ops": ops, "kind": "history"}
 
 
+def gen_gc_zero(rng):
+    """several replicas whose entry is 0 (they only incremented by 0) next to non-zero ones, every state sent through a real
+    gob encoder/decoder: gob omits zero fields, so a decoder must not let a 0 entry inherit the count decoded before it"""
+    nz = rng.randint(1, 3); nnz = rng.randint(1, 3)
+    reps = list(range(nz + nnz)); rng.shuffle(reps)
+    zeros, nonz = reps[:nz], reps[nz:]
+    ops, npool = [], 0
+    writes = [["W", r, 0] for r in zeros for _ in range(rng.randint(1, 2))] + [["W", r, rng.randint(1, 6)] for r in nonz]
+    rng.shuffle(writes)
+    ops += writes
+    for r in reps:
+        ops.append(["S", r, 1]); npool += 1
+    for dst in (50, 51):
+        order = list(range(npool)); rng.shuffle(order)
+        for m in order:
+            ops.append(["D", dst, m])
+        ops.append(["S", dst, 1]); npool += 1           # the merged state itself crosses gob
+    ops.append(["D", 52, npool - 2]); ops.append(["D", 53, npool - 1]); ops.append(["D", 52, npool - 1])
+    if rng.random() < 0.5:
+        ops.append(["W", rng.choice(zeros), rng.choice([0, 2])]); ops.append(["S", zeros[0], 1]); npool += 1
+        ops.append(["D", 53, npool - 1])
+    return {"type": "gcounter", "ids": rng.choice(["str", "num"]), "ops": ops, "kind": "zero-entries"}
+
+
 def gen_malformed_gc(rng):
     """precondition violated (negative increment / int32 overflow): only the tie model-vs-code is checked"""
     c = gen_history(rng, "gcounter", nops=rng.randint(3, 12), finale=False)
@@ -339,6 +363,8 @@ def run(ctx):
             typ = ("gcounter", "aworset", "lww")[i % 3]
             if typ == "gcounter" and rng.random() < 0.1:
                 c = gen_malformed_gc(rng)
+            elif typ == "gcounter" and rng.random() < 0.15:
+                c = gen_gc_zero(rng)
             else:
                 c = gen_history(rng, typ)
             c["lawset"] = lawset_for(c, rng)
